@@ -145,11 +145,13 @@ impl<'a> ExtInf<'a> {
     }
 }
 
-/// This tag requires [`ProtocolVersion::V1`], if the duration does not have
-/// nanoseconds, otherwise it requires [`ProtocolVersion::V3`].
+/// This tag requires [`ProtocolVersion::V1`], if the duration is written as an
+/// integer, otherwise it requires [`ProtocolVersion::V3`].
 impl RequiredVersion for ExtInf<'_> {
     fn required_version(&self) -> ProtocolVersion {
-        if self.duration.subsec_nanos() == 0 {
+        // the duration is written through an `f64`, which can not hold the
+        // nanoseconds of a very long duration: what counts is the written number
+        if self.duration.as_secs_f64().fract() == 0.0 {
             ProtocolVersion::V1
         } else {
             ProtocolVersion::V3
